@@ -145,6 +145,9 @@ def _cases(tier, kind):
     if kind == "token":
         docs = sigma("abc", 3)
         pairs = list(itertools.product(docs, repeat=2))
+        if tier != "quick":
+            long_docs = [d for d in sigma("abc", 4) if len(d) == 4]
+            pairs += [(a, b) for a in long_docs for b in docs[::3]] + [(b, a) for a in long_docs[::2] for b in docs[::5]]
         cfgs = CFGS
     elif kind == "timed":
         docs = sigma("abc", 3) if tier != "quick" else sigma("ab", 3)
